@@ -147,12 +147,14 @@ static ssize_t scripted_io (int k, const void *buf, size_t len)
   sendres_t r;
   int save = c14_cur;
   ssize_t rc;
-  static long calls = 0;
+  static long calls = 0, volume = 0;
   c14_cur = k;
-  if (++calls > 20000)
+  volume += (long) len;
+  if (++calls > 20000 || volume > (4L << 20))
     {
-      /* a broken send loop (e.g. message_length gone negative) would fill the disk before the case alarm fires */
-      out ("crash send-loop: more than 20000 send calls in one case");
+      /* a broken send loop (e.g. message_length gone negative or never decreasing) would fill the disk - and the memory of
+       * the check that reads the trace - before the case alarm fires: no legitimate case offers more than 4 MiB */
+      out ("crash send-loop: more than 20000 send calls or 4 MiB offered in one case");
       _exit (0);
     }
   if (u->qhead < u->qlen)
